@@ -102,7 +102,19 @@ func (c *RunnerCloserManager) Add(runner ...Runner) error {
 		return ErrManagerAlreadyStarted
 	}
 
-	return c.mngr.Add(runner...)
+	c.mngr.lock.Lock()
+	defer c.mngr.lock.Unlock()
+
+	// Run decides under this lock whether to install the runner that listens for
+	// Close: check again now that we have it. A runner accepted after that point
+	// could be started with nothing to stop it on Close.
+	if c.running.Load() {
+		return ErrManagerAlreadyStarted
+	}
+
+	c.mngr.runners = append(c.mngr.runners, runner...)
+
+	return nil
 }
 
 // AddCloser adds a closer to the list of closers to be closed once the main
@@ -149,7 +161,9 @@ func (c *RunnerCloserManager) AddCloser(closers ...any) error {
 
 // Add implements RunnerManager.Run.
 func (c *RunnerCloserManager) Run(ctx context.Context) error {
+	c.mngr.lock.Lock()
 	if !c.running.CompareAndSwap(false, true) {
+		c.mngr.lock.Unlock()
 		return ErrManagerAlreadyStarted
 	}
 
@@ -159,7 +173,7 @@ func (c *RunnerCloserManager) Run(ctx context.Context) error {
 	// If the main runner has at least one runner, add a closer that will
 	// close the context once Close() is called.
 	if len(c.mngr.runners) > 0 {
-		c.mngr.Add(func(ctx context.Context) error {
+		c.mngr.runners = append(c.mngr.runners, func(ctx context.Context) error {
 			select {
 			case <-ctx.Done():
 			case <-c.closeCh:
@@ -167,6 +181,7 @@ func (c *RunnerCloserManager) Run(ctx context.Context) error {
 			return nil
 		})
 	}
+	c.mngr.lock.Unlock()
 
 	errCh := make(chan error, len(c.closers))
 	go func() {
